@@ -366,6 +366,7 @@ static uint64_t est_steps = 2000;
 static int strat_pct;               /* this round */
 static int budget_extended;
 static int force_fire_next;
+static int p_stall_ppm;
 
 static void deadlock (void) {
 	char sig[256]; blocked_signature (sig, sizeof (sig));
@@ -452,7 +453,6 @@ static void sched_point (int forced_switch) {
 	handoff (forced_switch);
 }
 
-static int p_stall_ppm;
 static unsigned long long stalls_total;
 static void sched_reset (int nthreads, uint64_t seed) {
 	NT = nthreads; round_steps = 0; round_switches = 0; sched_hash = sig_hash; me = -1;
@@ -578,9 +578,17 @@ void nsync_verif_step_ (const char *file, int line, const char *func, int op, co
 void nsync_verif_done_ (int op, const volatile void *addr, uint32_t old_v, uint32_t new_v, int ok) {
 	if (me < 0) return;
 	if (ring_on) { struct rev *e = &ring[T[me].last_ring]; if (e->tid == me) { e->old_v = old_v; e->new_v = new_v; e->ok = ok; } }
+	int on_watched = 0;
 	for (int i = 0; i < 8; i++) if (watched[i].addr == addr && addr != NULL) {
 		if (ok) { wset_add (wvals, &wvals_n, new_v); if (op <= 4) wset_add (wtrans, &wtrans_n, ((uint64_t) old_v << 32) | new_v); }
 		watched[i].cb (i, op, old_v, new_v, ok);
+		on_watched = 1;
+	}
+	/* in the rounds that have store stalls: a thread that has just CHANGED a watched word (a successful CAS) and is still inside its call is,
+	   one time in eight, held back while others take 1..3 turns: transient states of multi-step updates get observed by the others */
+	if (mode_b && sched_active && on_watched && ok && op <= 4 && old_v != new_v && p_stall_ppm && xs (&sched_rng) % 8u == 0) {
+		int k = 1 + (int) (xs (&sched_rng) % 3);
+		while (k-- > 0) sched_point (1);
 	}
 }
 
